@@ -81,7 +81,16 @@ func NewMemoryCache[MetadataT any](cfg *config.Config, memoryBudgetPercent int, 
 			c.mu.RUnlock()
 
 			for key, entry := range snapshot {
-				if !yield(key, entry.meta) {
+				// The metadata is modified under the key's lock (last access, expiry), so it is read under that
+				// lock too and handed out as a copy. An entry whose lock is taken is in use and is skipped.
+				lock := getLock(c.locks, key)
+				if !lock.TryLock() {
+					continue
+				}
+				metaCopy := *entry.meta
+				lock.Unlock()
+
+				if !yield(key, &metaCopy) {
 					break
 				}
 			}
@@ -142,16 +151,23 @@ func (c *MemoryCache[MetadataT]) Get(key CacheKey) (*Entry[MetadataT], error) {
 	entry.meta.LastAccess = time.Now()
 	metrics.Global.Cache.CacheHits.Increment()
 
+	// The caller reads the metadata after the key lock is released, while a revalidation or another
+	// lookup may be updating it: hand out a copy.
+	metaCopy := *entry.meta
+
 	return &Entry[MetadataT]{
 		Data:     &memoryReadSeekCloser{bytes.NewReader(entry.data)},
-		Metadata: entry.meta,
+		Metadata: &metaCopy,
 		Stale:    stale,
 	}, nil
 }
 
 func (c *MemoryCache[MetadataT]) cacheInternal(key CacheKey, data io.Reader, expires time.Time, metadata MetadataT, evictIfFull bool) (*Entry[MetadataT], error) {
 	maxCacheSize := c.maxCacheSize.Get()
-	limit := min(maxCacheSize, c.memoryCap)
+	c.mu.RLock()
+	memoryCap := c.memoryCap // changed under mu when the memory budget is reconfigured
+	c.mu.RUnlock()
+	limit := min(maxCacheSize, memoryCap)
 
 	if c.byteSize.Get() >= limit {
 		if evictIfFull {
@@ -202,9 +218,10 @@ func (c *MemoryCache[MetadataT]) cacheInternal(key CacheKey, data io.Reader, exp
 	incrementCacheEntries()
 	addCacheSize(&c.byteSize, int64(count))
 
+	metaCopy := *meta
 	return &Entry[MetadataT]{
 		Data:     &memoryReadSeekCloser{bytes.NewReader(dataBytes)},
-		Metadata: meta,
+		Metadata: &metaCopy,
 	}, nil
 }
 
@@ -283,5 +300,6 @@ func (c *MemoryCache[MetadataT]) GetMetadata(key CacheKey) (meta *EntryMetadata[
 	entry.meta.LastAccess = time.Now()
 	metrics.Global.Cache.CacheHits.Increment()
 
-	return entry.meta, stale, nil
+	metaCopy := *entry.meta
+	return &metaCopy, stale, nil
 }
